@@ -103,6 +103,30 @@ def preset_templates(ctx):
                         continue
                     if isinstance(v, TNode):
                         out[name] = v
-        return out
+        # a module-level node that is a PART of another one (a fragment named for readability: the
+        # body of a helper lambda, ...) is not emitted on its own: its names are bound by the whole
+        def contains(whole, part, seen=None, depth=0):
+            seen = set() if seen is None else seen
+            if id(whole) in seen or depth > 60:
+                return False
+            seen.add(id(whole))
+            if whole is part:
+                return True
+            if isinstance(whole, TNode):
+                return any(contains(x, part, seen, depth + 1) for x in whole.fields.values())
+            for attr in ("items",):
+                for x in getattr(whole, attr, None) or []:
+                    if contains(x, part, seen, depth + 1):
+                        return True
+            for k, x in getattr(whole, "pairs", None) or []:
+                if contains(k, part, seen, depth + 1) or contains(x, part, seen, depth + 1):
+                    return True
+            return False
+
+        roots = {}
+        for name, v in out.items():
+            if not any(o is not v and contains(o, v) for o in out.values()):
+                roots[name] = v
+        return roots
 
     return cached(ctx, "preset_templates", build)
